@@ -111,6 +111,13 @@ def _tf(variant, case, frames, coords, j):
     return frames, coords, px, dt
 
 
+def pow2(a):
+    """a is an exact (positive) power of two: scaling doubles by it is exact"""
+    import math
+
+    return a > 0 and math.frexp(a)[0] == 0.5
+
+
 def expand(case):
     """list of calls; each call = one protocol op with concrete inputs"""
     kind = case["kind"]
@@ -128,7 +135,8 @@ def expand(case):
                 if op == "cvek":
                     c["lv"] = case["lv"] * a2 if case["lv"] is not None else None
                     c["vlv"] = case["vlv"] * a2 * a2 if case["vlv"] is not None else None
-                if op == "ols" and v != "scale":
+                if op == "ols" and (v != "scale" or pow2(case["meta"]["a"])):
+                    # GLS / automatic lag selection: exact under power-of-two scaling, so asserted there too
                     c["extras"] = case.get("extras", [])
                 calls.append(c)
     elif kind == "ens":
@@ -706,9 +714,13 @@ def oracle(case, ia):
                     msg = same_est(av, ab, f, S, what)
                     if msg:
                         return msg
-                    if op == "ols" and v != "scale":
+                    if op == "ols" and (v != "scale" or pow2(meta["a"])):
                         ev, eb = parse_extras(ans(v, op)), parse_extras(ans("base", op))
                         for name in eb:
+                            if v == "scale" and not name.startswith("ols"):
+                                # GLS stops on an ABSOLUTE change of 1e-4 (documented `tolerance`), so it is only
+                                # scale-covariant up to that iteration tolerance: not asserted (DESIGN, C09 outside)
+                                continue
                             if name not in ev:
                                 return f"harness: extra {name} missing for {v}"
                             xv, xb = ev[name].split(","), eb[name].split(",")
@@ -992,7 +1004,9 @@ def gen_coords(rng, n, exact):
 
 def gen_meta(rng, exact):
     return {"c": rng.randint(-640, 640) / 64, "k": rng.randint(-20, 60),
-            "a": rng.choice([2.0, 0.5, 4.0, 0.25, 3.0, 1.5] if exact else [2.0, 0.5, 4.0]),
+            # powers of two scale doubles exactly; the extreme ones expose absolute thresholds hiding in
+            # quantities that carry units (seeded change C09a-m1: `slope < eps` instead of `slope < 0`)
+            "a": rng.choice([2.0, 0.5, 4.0, 0.25, 3.0, 1.5, 2.0**-30, 2.0**24, 2.0**-30] if exact else [2.0, 0.5, 4.0, 2.0**-30]),
             "tc": rng.choice([2.0, 0.5, 4.0, 3.0])}
 
 
